@@ -3,11 +3,13 @@
 package crypto
 
 import (
+	"bytes"
 	"crypto/rand"
 	"crypto/sha256"
 	"encoding/binary"
 	"fmt"
 	"io"
+	"math"
 	"sync"
 
 	"golang.org/x/crypto/chacha20poly1305"
@@ -165,21 +167,27 @@ func (s *SessionKey) Decrypt(ciphertext []byte) ([]byte, error) {
 	var nonce [NonceSize]byte
 	copy(nonce[:], ciphertext[:NonceSize])
 
-	// Verify nonce is in expected range (optional, helps detect replay/reorder)
+	// The nonce check, authentication and window update form one critical
+	// section: a message is accepted at most once, and only an authenticated
+	// message moves the window.
 	s.mu.Lock()
+	defer s.mu.Unlock()
+
+	// Only the opposite direction is acceptable: a message reflected back to
+	// its sender carries the sender's own direction prefix.
 	expectedNonce := s.buildRecvNonce()
-	// Allow some slack for out-of-order delivery (up to 1024 messages ahead)
+	if !bytes.Equal(nonce[:4], expectedNonce[:4]) {
+		return nil, fmt.Errorf("nonce direction mismatch")
+	}
+	// Allow gaps (lost messages) but never an already consumed counter
 	nonceValue := binary.BigEndian.Uint64(nonce[4:])
 	expectedValue := binary.BigEndian.Uint64(expectedNonce[4:])
 	if nonceValue < expectedValue {
-		s.mu.Unlock()
 		return nil, fmt.Errorf("nonce too old: received %d, expected >= %d", nonceValue, expectedValue)
 	}
-	// Update expected nonce if this one is higher
-	if nonceValue >= s.recvNonce {
-		s.recvNonce = nonceValue + 1
+	if nonceValue == math.MaxUint64 {
+		return nil, fmt.Errorf("nonce counter exhausted")
 	}
-	s.mu.Unlock()
 
 	aead, err := chacha20poly1305.New(s.key[:])
 	if err != nil {
@@ -190,6 +198,9 @@ func (s *SessionKey) Decrypt(ciphertext []byte) ([]byte, error) {
 	if err != nil {
 		return nil, fmt.Errorf("decrypt: %w", err)
 	}
+
+	// Authenticated: everything up to and including this counter is consumed
+	s.recvNonce = nonceValue + 1
 
 	return plaintext, nil
 }
